@@ -1,9 +1,118 @@
 package harness
 
-import "fmt"
+import (
+	"flag"
+	"fmt"
+	"os"
+	"time"
+)
 
-// Main is the worker entry point (filled in by engine files).
+// Worker entry point:
+//   sim run -prop C01 -seed 100 -n 50 -budget 60 -tier quick -known /verif/known_findings.jsonl -out result.json
+//   sim replay -file replay.json
 func Main(args []string) int {
-	fmt.Println("not implemented")
+	if len(args) == 0 {
+		fmt.Fprintln(os.Stderr, "usage: sim run|replay ...")
+		return 2
+	}
+	switch args[0] {
+	case "run":
+		return cmdRun(args[1:])
+	case "replay":
+		return cmdReplay(args[1:])
+	case "selftest":
+		return cmdSelftest(args[1:])
+	}
+	fmt.Fprintln(os.Stderr, "unknown command", args[0])
 	return 2
 }
+
+type runArgs struct {
+	Prop   string
+	Seed   uint64
+	N      int
+	Stride uint64
+	Budget float64
+	Tier   string
+	Known  string
+	Out    string
+}
+
+func cmdRun(args []string) int {
+	fs := flag.NewFlagSet("run", flag.ContinueOnError)
+	var a runArgs
+	fs.StringVar(&a.Prop, "prop", "", "property id")
+	fs.Uint64Var(&a.Seed, "seed", 1, "first seed")
+	fs.IntVar(&a.N, "n", 1, "number of seeds")
+	fs.Uint64Var(&a.Stride, "stride", 1, "seed stride")
+	fs.Float64Var(&a.Budget, "budget", 0, "wall-clock budget in seconds (0 = none)")
+	fs.StringVar(&a.Tier, "tier", "quick", "quick|thorough")
+	fs.StringVar(&a.Known, "known", "", "known findings file")
+	fs.StringVar(&a.Out, "out", "-", "result file")
+	if err := fs.Parse(args); err != nil {
+		return 2
+	}
+	InstallLogger()
+	if a.Known != "" {
+		if err := LoadKnown(a.Known); err != nil {
+			fmt.Fprintln(os.Stderr, err)
+			return 2
+		}
+	}
+	eng, ok := Engines[a.Prop]
+	if !ok {
+		fmt.Fprintln(os.Stderr, "no engine for property", a.Prop)
+		return 2
+	}
+	res := NewResult(a.Prop, eng.Name)
+	t0 := time.Now()
+	for i := 0; i < a.N; i++ {
+		if a.Budget > 0 && time.Since(t0).Seconds() > a.Budget {
+			break
+		}
+		seed := a.Seed + uint64(i)*a.Stride
+		res.Seeds = append(res.Seeds, seed)
+		func() {
+			defer func() {
+				if r := recover(); r != nil {
+					res.Harness("seed %d: harness panic: %v", seed, r)
+				}
+			}()
+			eng.Run(seed, a.Tier, res)
+		}()
+	}
+	res.WallSeconds = time.Since(t0).Seconds()
+	if err := res.WriteJSON(a.Out); err != nil {
+		fmt.Fprintln(os.Stderr, err)
+		return 2
+	}
+	return 0
+}
+
+// Engine runs one seed of a property's check.
+type Engine struct {
+	Name string
+	Run  func(seed uint64, tier string, res *Result)
+}
+
+// Engines is the registry: property id -> engine.
+var Engines = map[string]*Engine{}
+
+func cmdReplay(args []string) int {
+	fmt.Fprintln(os.Stderr, "replay: not implemented yet")
+	return 2
+}
+
+func cmdSelftest(args []string) int {
+	fmt.Fprintln(os.Stderr, "selftest: not implemented yet")
+	return 2
+}
+
+// DebugWorkload prints the generated workload of a property/seed.
+func init() {
+	if os.Getenv("VERIF_DUMP") != "" {
+		dumpWorkload = true
+	}
+}
+
+var dumpWorkload bool
